@@ -137,6 +137,15 @@ def tier_a(impl, spec, scripts, aspects):
                         break
             if s is not None and s['tags'].get('C') and s['tags']['C'][0].split()[1] != '0':
                 break      # the script left the documented contract here: nothing after it is demanded
+            if 'tmpaddr' in aspects:
+                for yl in b['tags'].get('Y', []):
+                    m_ = re.findall(r'(oob|misaligned|overlap)=(\d+)', yl)
+                    bad_ = [(k_, v_) for k_, v_ in m_ if int(v_)]
+                    if bad_:
+                        fail = dict(aspect='tmpaddr', what='storage handed out by a deferred assign: ' + ', '.join('%s %s' % (v_, k_) for k_, v_ in bad_))
+                        break
+                if fail:
+                    break
             opt = b['op'].split()
             opname = opt[0] if opt else ''
             if 'isolation' in aspects and depth > 0 and prev is not None and opname in LOCKED_STRUCTURAL:
